@@ -43,6 +43,35 @@ pub fn run(pool: &Pool, sc: &Value) -> Value {
     let mb: Metablock = serde_json::from_value(block).expect("metablock parses");
     let auth: Vec<PublicKey> = sc["auth"].as_array().unwrap().iter().map(|i| pool.public(i.as_u64().unwrap() as usize)).collect();
     let thr = sc["threshold"].as_u64().unwrap() as u32;
+    if sc["replay_on_other_content"] == true {
+        // first the genuine block, then a block with OTHER content carrying the very same signature values, in this process
+        let (mb, auth) = if sc["scheme"].as_str().map(|x| x.starts_with("Rsa")).unwrap_or(false) {
+            // RSA-PSS variant: key 0 is the repository's RSA fixture (the pool itself is ECDSA); only signatures made by key 0 are RSA ones
+            let repo = std::env::var("VERIF_REPO").unwrap_or_else(|_| "/repo".to_string());
+            let der = std::fs::read(format!("{}/tests/rsa/rsa-2048.pk8.der", repo)).expect("rsa fixture");
+            let rsa = in_toto::crypto::PrivateKey::from_pkcs8(&der, in_toto::crypto::SignatureScheme::RsaSsaPssSha256).expect("rsa key");
+            let mut sigs2 = Vec::new();
+            for s in sc["sigs"].as_array().unwrap() {
+                let mbk = s["made_by"].as_u64().unwrap() as usize; let lab = s["label"].as_u64().unwrap() as usize;
+                let content = signed.clone();
+                let blk = if mbk == 0 { Metablock::new(content, &[&rsa]).unwrap() } else { Metablock::new(content, &[&pool.ed[if mbk < npool { mbk } else { nk_unknown - 1 }]]).unwrap() };
+                let mut sig = serde_json::to_value(&blk).unwrap()["signatures"][0].clone();
+                let rsa_id = serde_json::to_value(rsa.public().key_id()).unwrap().as_str().unwrap().to_string();
+                sig["keyid"] = json!(if lab == 0 { rsa_id } else if lab < npool { pool.keyid(lab) } else { pool.keyid(nk_unknown) });
+                if !s["intact"].as_bool().unwrap() { let t = sig["sig"].as_str().unwrap().to_string(); let mut b: Vec<u8> = t.into_bytes(); b[0] = if b[0] == b'0' { b'1' } else { b'0' }; sig["sig"] = json!(String::from_utf8(b).unwrap()); }
+                sigs2.push(sig);
+            }
+            let block = json!({"signatures": sigs2, "signed": serde_json::to_value(&signed).unwrap()});
+            let m: Metablock = serde_json::from_value(block).expect("metablock parses");
+            let a: Vec<PublicKey> = vec![rsa.public().clone(), pool.public(1)];
+            (m, a)
+        } else { (mb, auth) };
+        let _ = mb.verify(thr, auth.iter());
+        let block2 = json!({"signatures": serde_json::to_value(&mb).unwrap()["signatures"], "signed": serde_json::to_value(&other).unwrap()});
+        let mb2: Metablock = serde_json::from_value(block2).expect("metablock parses");
+        let o = match mb2.verify(thr, auth.iter()) { Ok(_) => "ok".to_string(), Err(e) => crate::err_name(&e) };
+        return json!({"outcome": o, "outcomes": [o]});
+    }
     let reps = sc["repeat"].as_u64().unwrap_or(8);
     let mut outcomes: Vec<String> = Vec::new();
     for _ in 0..reps {
